@@ -42,6 +42,7 @@ ASSUMPTIONS = [
     'the supported subset is what the docstring and tests document; other constructs are not generated',
 ]
 BUDGET = {'quick': 16 * 250, 'thorough': 16 * 6000}
+RULE += (' ' + 'Round 8: now and then the returned structure nests dicts of plain values before the dict that holds the configurable calls.')
 FLOORS = {'multi_construct': 0.3, 'control_flow': 0.191, 'shared_variable': 0.064}
 
 SCRATCH = os.path.join('/dev/shm', f'verif_c11_{os.getuid()}')
@@ -188,6 +189,8 @@ def check(case):
     out.cls('partial_of_variable')
   if p.get('cv2') and 'cv' in str(p['body']):
     out.cls('closure_rebound')
+  if p.get('nested_ret'):
+    out.cls('nested_ret')
   out.cls('form_' + p['form'])
   out.nontrivial = len(groups - {'call'}) >= 2
   feat = p['form'] + (':cf' if p['control_flow'] else '')
@@ -228,6 +231,12 @@ def check(case):
     try:
       cfg = mod.target.as_buildable(*args)
     except Exception as e:  # pylint: disable=broad-except
+      if 'did not contain' in str(e) and 'version of `helper' not in str(e) and _ret_direct_buildable(p):
+        # (a helper whose own result holds no Buildable is rejected legitimately: the message names it)
+        # the returned expression holds a configurable call reached through list / tuple / dict
+        # displays only: the structure as_buildable sees does contain a Buildable
+        out.add('as_buildable-rejects-result-containing-buildable', exc_kind(e), '', feat, f'{e!r}\n{src}'[:2500])
+        return out
       if 'did not contain' in str(e) or not _contains_rec(expected):
         out.skipped = 'result-has-no-buildable'
         return out
@@ -259,6 +268,24 @@ def _safe_repr(x):
     return repr(x)
   except BaseException as e:  # pylint: disable=broad-except
     return f'<repr failed: {type(e).__name__}>'
+
+
+def _ret_direct_buildable(p):
+  """True if the final `return` expression holds a configurable call / partial reachable through
+  list, tuple and dict displays only (anything else is 'unknown' and answers False)."""
+  ret = p['body'][-1]
+  if ret[0] != 'return':
+    return False
+
+  def walk(e):
+    if e[0] in ('call', 'partial'):
+      return True
+    if e[0] in ('list', 'tuple'):
+      return any(walk(x) for x in e[1])
+    if e[0] == 'dict':
+      return any(walk(v) for _, v in e[1])
+    return False
+  return walk(ret[1])
 
 
 def _contains_rec(x):
